@@ -63,7 +63,7 @@ CLAIMS = {
          "timer accuracy, dial failure by connect_timeout and close notification are the runtime's/quinn's."),
  "C09": ("Coq theorems about a network-level model (NetModel.v, big steps run to quiescence): after a quiet period longer than the idle timeout A lists B iff B lists A and every "
          "listed link is uncut; an explicit disconnect removes the peer locally at once with LostPeer(Requested) and, the link permitting, at the other side; a successful dial "
-         "lists both ends; tied by sequential scripts (dials, disconnects, restarts, partitions, healing, quiet periods) on whole networks over the fabric whose dial results, "
+         "lists both ends; requests in flight inside a remote handler change none of this (run w ops = run w (ops without Call)); tied by sequential scripts (dials, disconnects, restarts, partitions, healing, quiet periods, long-polling calls left pending across them) on whole networks over the fabric whose dial results, "
          "listings at quiet points and pairwise RPC reachability are compared with the model / checked by monitors. Partial: the transport hypothesis (close propagation, idle "
          "timeout, keep-alive) is quinn's.",
          "quinn close/idle semantics are assumed (modelled as the Quiesce/Disconnect steps)."),
